@@ -5,6 +5,11 @@
 
 package rtcp
 
+import (
+	"fmt"
+	"reflect"
+)
+
 // Executable oracles for the bounded lemmas (contracts marked `bounded` in verif_contracts.go). These ghost
 // functions are only ever *run* (on generated inputs, by the bounded harness); the deductive engine never
 // evaluates them, so they may use loops and build slices freely. They are written from the wire formats
@@ -588,3 +593,83 @@ func specFramesDecodeAlone(raw []byte, ps []Packet) bool {
 
 // lemmaDatagram (C06, C01): all-or-nothing, splitting at the length fields, locality.
 func lemmaDatagram(raw []byte) (ps []Packet, err error) { return Unmarshal(raw) }
+
+// ---- purity (C18): executed lemmas. specDeepCopy clones a value through pointers, slices and interfaces. ----
+
+func specDeepCopy(v reflect.Value) reflect.Value {
+	switch v.Kind() {
+	case reflect.Ptr:
+		if v.IsNil() {
+			return v
+		}
+		n := reflect.New(v.Type().Elem())
+		n.Elem().Set(specDeepCopy(v.Elem()))
+		return n
+	case reflect.Interface:
+		if v.IsNil() {
+			return v
+		}
+		n := reflect.New(v.Type()).Elem()
+		n.Set(specDeepCopy(v.Elem()))
+		return n
+	case reflect.Slice:
+		if v.IsNil() {
+			return v
+		}
+		n := reflect.MakeSlice(v.Type(), v.Len(), v.Len())
+		for i := 0; i < v.Len(); i++ {
+			n.Index(i).Set(specDeepCopy(v.Index(i)))
+		}
+		return n
+	case reflect.Struct:
+		n := reflect.New(v.Type()).Elem()
+		n.Set(v) // unexported fields are copied shallowly (the package has none that hold references)
+		for i := 0; i < v.NumField(); i++ {
+			if n.Field(i).CanSet() {
+				n.Field(i).Set(specDeepCopy(v.Field(i)))
+			}
+		}
+		return n
+	default:
+		return v
+	}
+}
+
+func specClonePacket(p Packet) Packet {
+	return specDeepCopy(reflect.ValueOf(&p).Elem()).Interface().(Packet)
+}
+
+// lemmaPure (C18): Marshal, MarshalSize, DestinationSSRC and String leave the packet as it was (an extended report's
+// block headers excepted, as documented) and give the same results when called again.
+func lemmaPure(p Packet) (unchanged bool, repeatable bool) {
+	before := specClonePacket(p)
+	b1, e1 := p.Marshal()
+	n1 := p.MarshalSize()
+	d1 := p.DestinationSSRC()
+	s1 := fmt.Sprint(p)
+	if x, ok := before.(*ExtendedReport); ok {
+		for _, blk := range x.Reports {
+			blk.setupBlockHeader() // the one documented exception
+		}
+	}
+	unchanged = reflect.DeepEqual(before, p)
+	b1 = append([]byte(nil), b1...)
+	d1 = append([]uint32(nil), d1...)
+	b2, e2 := p.Marshal()
+	n2 := p.MarshalSize()
+	d2 := p.DestinationSSRC()
+	s2 := fmt.Sprint(p)
+	repeatable = (e1 == nil) == (e2 == nil) && seqEq(b1, b2) && n1 == n2 && seqEq(d1, d2) && s1 == s2 && reflect.DeepEqual(before, p)
+	return unchanged, repeatable
+}
+
+// lemmaDecodePure (C18): Unmarshal does not write to its input and decoding the same octets again gives the same
+// packets (no dependence on earlier calls).
+func lemmaDecodePure(raw []byte) (inputUnchanged bool, repeatable bool) {
+	orig := append([]byte(nil), raw...)
+	ps, err := Unmarshal(raw)
+	inputUnchanged = seqEq(orig, raw)
+	qs, err2 := Unmarshal(append([]byte(nil), orig...))
+	repeatable = (err == nil) == (err2 == nil) && (err != nil || reflect.DeepEqual(ps, qs))
+	return inputUnchanged, repeatable
+}
